@@ -36,7 +36,9 @@ func replay(path string) int {
 		return 1
 	}
 	m := mon.Replay(rp.Events)
+	m.Events = rp.Events
 	oracle.Offline(m, 20*time.Second)
+	oracle.Windows(m)
 	found := false
 	for _, v := range m.Viol {
 		rel := false
